@@ -43,7 +43,7 @@ fn range(u: &mut Unstructured) -> RangeSpec {
 fn script(u: &mut Unstructured, wide: bool) -> Vec<Step> {
     let n = u.int_in_range(0usize..=8).unwrap_or(0);
     (0..n)
-        .map(|_| match u.int_in_range(0u8..=if wide { 18 } else { 4 }).unwrap_or(0) {
+        .map(|_| match u.int_in_range(0u8..=if wide { 19 } else { 4 }).unwrap_or(0) {
             0 | 1 => Step::Next,
             2 | 3 => Step::NextBack,
             4 => Step::Dbg,
@@ -60,6 +60,7 @@ fn script(u: &mut Unstructured, wide: bool) -> Vec<Step> {
             15 => Step::Search,
             16 => Step::FindMid,
             17 => Step::RFindMid,
+            18 => Step::PanicSearch(u.int_in_range(0u16..=5).unwrap_or(0), u.arbitrary().unwrap_or(false)),
             _ => Step::RevCollect,
         })
         .collect()
@@ -77,7 +78,7 @@ fn hint(u: &mut Unstructured) -> Hint {
 
 fn op(u: &mut Unstructured) -> Op {
     let cnt = |u: &mut Unstructured| u.int_in_range(0u32..=40).unwrap_or(0);
-    match u.int_in_range(0u8..=48).unwrap_or(0) {
+    match u.int_in_range(0u8..=50).unwrap_or(0) {
         0 | 1 | 2 => Op::PushBack,
         3 | 4 => Op::PushFront,
         5 => Op::TryPushBack,
@@ -124,6 +125,8 @@ fn op(u: &mut Unstructured) -> Op {
         44 => Op::FromArray(u.int_in_range(0u32..=19).unwrap_or(0)),
         45 => Op::FromIter(cnt(u), hint(u)),
         46 => Op::MoveBuf,
+        49 => Op::ExtendPairs(cnt(u), hint(u)),
+        50 => Op::Unzip(cnt(u), hint(u)),
         47 => Op::CmpCap(u.int_in_range(0u32..=8).unwrap_or(0), u.arbitrary::<u16>().unwrap_or(0) as u32, u.arbitrary::<u16>().unwrap_or(0) as u32, if u.arbitrary().unwrap_or(false) { Some(idx(u)) } else { None }),
         _ => Op::DropBuf,
     }
@@ -154,6 +157,7 @@ pub fn decode_case(data: &[u8]) -> Case {
         ops,
         salt,
         unwinding: salt % 8 == 0,
+        vals: if (salt >> 3) % 3 == 0 { ((salt >> 5) % 5) as u8 } else { 0 },
     }
 }
 
